@@ -101,4 +101,14 @@ PROPS = {
         "lengths 0..40, multiples of the identity; IsOnCurve on curve points, near misses and (0,0)",
    assumptions=["P = 2^256 - 2^32 - 977 is prime (hypothesis Fact (Nat.Prime P) of every theorem)"],
    trusted_base=["Mathlib's elliptic-curve group law (WeierstrassCurve.Affine.Point)", "math/big modelled on Int"]),
+ "C13": P("C13", race=True,
+   rule="ops: mine.trace = one recorded execution of the real Mine (hook events spawn / batch / saw-done / store / send / wg.Done / Wait returned / close / recv / watcher arms / cancel, with the result), replayed by the Lean validator "
+        "against the transition system (every event must be an enabled step, the run must end in `returned` with the reported result); mine.runtime = goroutines alive 200 ms after return, time from cancel() to return, unexpected errors "
+        "(each scenario also without the trace sink). Scenarios: v1 and v2 x workers {1,2,3,8} (thorough: also 16, 64; 8 repetitions) x {every lane qualifies, some work, cancelled before the call, pre-cancelled and satisfiable, "
+        "cancelled during mining, cancellation racing a find}. The same stream runs once more in a harness built with -race",
+   assumptions=["sync/atomic, channels, sync.WaitGroup and context behave as the Go memory model specifies (each is one atomic step of the model)",
+                "the Go scheduler is fair (every enabled goroutine eventually runs); real time is not modelled: bounds are step counts",
+                "numWorkers >= 1 (enforced by New)"],
+   trusted_base=["Iota/Model/Mine.lean (the transition system) is tied to the source by the regenerated synchronisation skeleton, capture and access lists (Tie/C13) and validated by trace replay",
+                 "the Go race detector and runtime.NumGoroutine in the supporting run"]),
 }
